@@ -359,6 +359,10 @@ def run(facts, tier):
             e4.violate("main-loop", f"the main loop of data::run does not propagate the first error on both levels (try_for_each x{ntry}, for_each x{nfor})", where=dr["sp"])
     rules.append(e4.finish())
 
+    # ---------------- E17.5 outcomes are examined one at a time (shared with C18 W18.8)
+    from c18 import rule_no_deferred_results
+    rules.append(rule_no_deferred_results(facts, "E17.5").finish())
+
     # ---------------- I17.6 one input stream
     i6 = Rule("I17.6", "one input stream: the function that builds the run-time data wraps the caller's input iterator in exactly one shared iterator; the main loop iterates "
               "that same object and the data handed to `input`/`inputs` holds that same object (every input is consumed once, by whoever asks first); "
